@@ -168,6 +168,9 @@ extern "C" int epoll_wait(int epfd, struct epoll_event* evs, int maxevents, int 
     (void)!write(2, msg, sizeof(msg) - 1);
     _exit(97);
   }
+  // step S: the wait is interrupted by a signal (a handler without SA_RESTART ran): epoll_wait fails with EINTR; run() must go
+  // on (it returns only after interrupt())
+  if(!exhausted && st[0] == 'S') { ev_begin("pollintr"); j_int("now", vnow); j_end(); errno = EINTR; return -1; }
   if(exhausted) do_interrupt("script");
   // the send outcome of an O/B step applies to the send(s) this step triggers
   sendQn = 0;
